@@ -452,12 +452,19 @@ impl<A: Send + 'static> Cell<A> {
                 Arc::new(Mutex::new(Stream::downgrade(&Stream::new(&sodium_ctx))));
             let sa = sa;
             let node1: Node;
+            // The inner node keeps the outer node alive (a handle owned by its update closure, declared to the
+            // tracer below) WITHOUT depending on it: the switch's output in a transaction is the event of the
+            // stream the outer cell held at the START of that transaction, so an update of the outer cell -
+            // which may itself be derived from the switch's output - is not an input of the inner node.
+            let outer_keep: Arc<Mutex<Option<Node>>> = Arc::new(Mutex::new(None));
             {
                 let inner_s = inner_s.clone();
+                let outer_keep = outer_keep.clone();
                 node1 = Node::new(
                     &sodium_ctx,
                     NodeName::CELL_SWITCH_S_INNER,
                     move || {
+                        let _ = &outer_keep;
                         let inner_s = inner_s.lock();
                         let inner_s = inner_s.upgrade().unwrap();
                         inner_s.with_firing_op(|firing_op: &mut Option<A>| {
@@ -513,7 +520,8 @@ impl<A: Send + 'static> Cell<A> {
                 );
             }
             node2.add_update_dependencies(vec![csa_updates_dep, Dep::new(node1.gc_node().clone())]);
-            node1.add_dependency(node2);
+            node1.add_update_dependencies(vec![Dep::new(node2.gc_node().clone())]);
+            *outer_keep.lock() = Some(node2);
             node1
         })
     }
